@@ -98,6 +98,7 @@ def do_run(case, proj, sim, env, mts, deps, patterns, res, label):
         res.violation("crash", "gwf run failed", **cli.crash_witness(r), **ctx)
         return None
     subs = scenario.submissions_view(sim, seq0)
+    res.obs(label, {"backend": bview, "expected_plan": sorted(want_submit), "journal": [(s_["seq"], s_["name"], s_["id"], s_["dep_raw"]) for s_ in subs]})
     scenario.check_plan(res, subs, want_submit, want_prereq, tracked, sched, ctx)
     canc = sim.commands(seq0, set(CANCEL_CMD.values()))
     if canc:
